@@ -207,6 +207,8 @@ func main() {
 	} else {
 		cfgs = append(cfgs, cfg{"", "jitter0.3*2^20", 0.3, 1 << 20, 0, 0, 4}, cfg{"", "jitter0.3+offset(4096,-8192)", 0.3, 1, 4096, -8192, 4})
 	}
+	// far from the origin in every quadrant direction (the triangulation must not depend on where the set lies)
+	cfgs = append(cfgs, cfg{"", "jitter0.3+offset(0,32768)", 0.3, 1, 0, 32768, 4}, cfg{"", "jitter0.3+offset(-65536,16384)", 0.3, 1, -65536, 16384, 4}, cfg{"", "jitter0.3+offset(32768,0)", 0.3, 1, 32768, 0, 4})
 	for _, cf := range cfgs {
 		var pts []v2.Vec
 		for i := 0; i < cf.grid*cf.grid; i++ {
